@@ -8,6 +8,12 @@ pub(crate) fn subcommand_heading(cmd: &clap::Command) -> &str {
     }
 }
 
+/// The arguments of a roff request end with its line: a newline in user text (name, version,
+/// heading) would otherwise start a new line that roff may read as a request of its own
+pub(crate) fn control_arg(arg: &str) -> String {
+    arg.replace('\n', " ")
+}
+
 pub(crate) fn about(roff: &mut Roff, cmd: &clap::Command) {
     let name = cmd.get_display_name().unwrap_or_else(|| cmd.get_name());
     let s = match cmd.get_about().or_else(|| cmd.get_long_about()) {
